@@ -86,6 +86,33 @@ class Cfg:
                 "labels": [repr(x) for x in self.labels], "n_ops": self.n_ops}
 
 
+class BuildCtx:
+    """Context for a history that only BUILDS the input of another property's oracle.  The abstract model still judges
+    every call: if the object is not what the calls should have produced, whatever is then measured on it would be
+    compared with a reference derived from a wrong observation, so the mismatch is reported under the measuring
+    property (prefix "input-build:") and the case ends.  Counters and samples of the build are not recorded."""
+
+    def __init__(self, ctx, prop):
+        self.ctx, self.prop = ctx, prop
+        self.tier = getattr(ctx, "tier", "quick")
+
+    def check(self, monitor, cond, mechanism, detail=None, abort=False):
+        if not cond:
+            self.violation(mechanism, detail() if callable(detail) else detail, abort=True)
+        return True
+
+    def violation(self, mechanism, detail=None, abort=False):
+        from .monitor import CaseAbort
+
+        if isinstance(detail, dict):
+            detail = {k: v for k, v in detail.items() if k in ("trace", "raised", "problems", "error")}
+        self.ctx.violation(f"{self.prop}:input-build:{mechanism}", detail)
+        raise CaseAbort(mechanism)
+
+    def __getattr__(self, k):  # tick / event / exc / set_add / distinct_add / note / sample / inconclusive_case
+        return lambda *a, **kw: True
+
+
 # -------------------------------------------------------------------------------------
 # generation
 # -------------------------------------------------------------------------------------
